@@ -20,6 +20,11 @@ import (
 // renaming (the code never branches on absolute values of ids/times, only on
 // equality and order).
 func (h *VHist) Canon(absIDs []string, absDatasets []string, extra string) string {
+	return h.CanonOpt(absIDs, absDatasets, extra, false)
+}
+
+// CanonOpt is Canon; with onlyListed, records that belong to datasets outside absDatasets are left out.
+func (h *VHist) CanonOpt(absIDs []string, absDatasets []string, extra string, onlyListed bool) string {
 	s := h.W.Store
 	var lines []string
 	ridRank := map[uint64]int{}
@@ -152,6 +157,35 @@ func (h *VHist) Canon(absIDs []string, absDatasets []string, extra string) strin
 			recs = append(recs, rec{"L", []uint64{uint64(d), rid}, val})
 		})
 	}
+	if onlyListed {
+		// drop records of other datasets BEFORE ranking times, so that removing them leaves the key unchanged
+		kept := recs[:0]
+		times = map[uint64]bool{}
+		for _, r := range recs {
+			var d uint64
+			switch r.kind {
+			case "E", "O", "I":
+				d = r.f[1]
+			default:
+				d = r.f[0]
+			}
+			if _, ok := dsRank[uint32(d)]; !ok {
+				continue
+			}
+			kept = append(kept, r)
+			switch r.kind {
+			case "E", "O", "I":
+				times[r.f[2]] = true
+			default:
+				var t uint64
+				var sq int
+				if n, _ := fmt.Sscanf(r.val, "t%d.%d", &t, &sq); n == 2 {
+					times[t] = true
+				}
+			}
+		}
+		recs = kept
+	}
 	var tl []uint64
 	for t := range times {
 		tl = append(tl, t)
@@ -198,6 +232,9 @@ func (h *VHist) Canon(absIDs []string, absDatasets []string, extra string) strin
 				v = fmt.Sprintf("t%d.%d", tRank[t], sq)
 			}
 			line = fmt.Sprintf("L %s %s %s", dr(r.f[0]), rr(r.f[1]), v)
+		}
+		if onlyListed && strings.Contains(line, " dX ") {
+			continue
 		}
 		lines = append(lines, line)
 	}
